@@ -1,1 +1,262 @@
-import SwcVerif.Gen.Consts
+import SwcVerif.Proofs.SwcText
+/-! # C01 — SWC write → read round trip reproduces the tree
+
+Theorems about the writer model (`SwcText.formatRow`, `commentLine`, `writeLines`, `writeSwc` =
+`io.to_swc` + `SWCLike.to_swc`) composed with the reader model (`classify`, `readLines`, `resetIndex` =
+`parse_swc` + `reset_index_`).  Coordinates enter the writer as the integer `k` with `value ≈ k·10⁻⁴`
+(the float → 4-decimal rounding is CPython's `format`, computed by the harness with `decimal`) plus the
+sign bit; they come back exactly as `⟨sign, k, -4⟩ = ±k·10⁻⁴`.  Id offsets are the non-negative ones
+(a negative offset would write negative ids, which are not SWC). -/
+namespace C01
+open SwcText
+
+/-- the writer's format strings, as the models were written for (regenerated from `io.py` every run) -/
+theorem writer_consts_pinned :
+    Gen.Consts.writerFStrings = ["f'# {' '.join(cols)}\\n'", "f'{v:.4f}'", "f'# {c.lstrip()}\\n'", "f'.4f'"] ∧
+    Gen.Consts.writerBlankCommentYield = "yield '#\\n'" ∧
+    Gen.Consts.writerOffsetRule = "k == names.id or (k == names.pid and v != -1) => v += id_offset" ∧
+    Gen.Consts.writerIdOffsetDefault = 1 ∧
+    headerText = "id type x y z r pid".toList := by
+  exact ⟨rfl, rfl, rfl, rfl, headerText_eq⟩
+
+/-- `str(n)` reads back as `n` (any following non-digit text is left alone) -/
+theorem digits_parse (n : Nat) (rest : Str) (h : ∀ c, rest.head? = some c → isDig c = false) :
+    intTok (digits n ++ rest) = some (n, rest) := by
+  exact intTok_step (intTok_digits n) h
+
+/-- **`%.4f` text parses back to the same grid value**, sign included, for every magnitude -/
+theorem fmt4_parse (neg : Bool) (k : Nat) (rest : Str) (h : ∀ c, rest.head? = some c → isWs c = true) :
+    floatPrefix (fmt4 neg k ++ rest) = some (⟨neg, k, -4⟩, rest) := by
+  exact floatPrefix_step (floatPrefix_fmt4 neg k) (WsHead.noNum h)
+
+/-- the row the reader must see for a written row: ids shifted by the offset, a root's `-1` kept -/
+def shifted (off : Nat) (w : WRow) : Row :=
+  ⟨w.id + off, w.type, ⟨w.x.1, w.x.2, -4⟩, ⟨w.y.1, w.y.2, -4⟩, ⟨w.z.1, w.z.2, -4⟩, ⟨w.r.1, w.r.2, -4⟩,
+   if w.pid = -1 then -1 else w.pid + off, []⟩
+
+/-- **row round trip, every offset ≥ 0** -/
+theorem row_roundtrip (off : Nat) (w : WRow) (hp : w.pid = -1 ∨ 0 ≤ w.pid) :
+    classify 0 (formatRow off w) = .data (shifted off w) false := by
+  have hf : formatRow off w = [] ++ (digits (w.id + off) ++ ([' '] ++ (digits w.type ++ ([' '] ++ (fmt4 w.x.1 w.x.2 ++
+      ([' '] ++ (fmt4 w.y.1 w.y.2 ++ ([' '] ++ (fmt4 w.z.1 w.z.2 ++ ([' '] ++ (fmt4 w.r.1 w.r.2 ++ ([' '] ++
+        (showInt (if w.pid = -1 then -1 else w.pid + off) ++ ['\n']))))))))))))) := by
+    simp [formatRow]
+  have hs : ∀ c ∈ [' '], isWs c = true := by simp; decide
+  have hn : ∀ c ∈ ['\n'], isWs c = true := by simp; decide
+  have hne : [' '] ≠ [] := by simp
+  rw [hf]
+  exact classify_of_parseData (parseData_seven [] [' '] [' '] [' '] [' '] [' '] [' '] ['\n'] _ _ _ _ _ _ _ _ _ _ _ _ _ _
+    (by simp) hn hne hs hne hs hne hs hne hs hne hs hne hs
+    (intTok_digits _) (intTok_digits _) (floatPrefix_fmt4 _ _) (floatPrefix_fmt4 _ _) (floatPrefix_fmt4 _ _)
+    (floatPrefix_fmt4 _ _) (pidTok_showInt _))
+
+/-- what a written comment reads back as -/
+def readBack (c : Str) : Str := if isSpaceStr c then [] else ' ' :: dropWs c
+
+theorem classify_commentLine (nx : Nat) (c : Str) : classify nx (commentLine c) = .comment (readBack c) := by
+  unfold commentLine readBack
+  split
+  · exact classify_hash nx _ ['\n'] (by simp [dropWs, isWs])
+  · have := classify_hash nx ('#' :: ' ' :: dropWs c ++ ['\n']) (' ' :: dropWs c ++ ['\n']) (by simp [dropWs, isWs])
+    rw [this]; congr 1; exact stripNl_append_nl (' ' :: dropWs c)
+
+/-- **comment round trip**: a comment (any text without a line break) is written as one `#` line and
+read back as a comment … -/
+theorem comment_roundtrip (nx : Nat) (c : Str) (hnl : '\n' ∉ c) :
+    classify nx (commentLine c) = .comment (readBack c) := by
+  exact classify_commentLine nx c
+/-- … whose text is the original, leading blanks aside -/
+theorem comment_text_same (c : Str) : dropWs (readBack c) = dropWs c := by
+  unfold readBack
+  split
+  · rename_i h
+    simp only [isSpaceStr, Bool.and_eq_true, List.all_eq_true] at h
+    rw [dropWs_allWs c h.2]
+  · have : dropWs (' ' :: dropWs c) = dropWs (dropWs c) := by simp [dropWs, isWs]
+    rw [this, dropWs_idem]
+
+/-- the writer's own column header is a comment line that the reader drops -/
+theorem header_dropped (nx : Nat) :
+    classify nx headerLine = .comment (' ' :: headerText) ∧ keepComment (' ' :: headerText) = false := by
+  constructor
+  · have := classify_hash nx headerLine (' ' :: headerText ++ ['\n']) (by simp [headerLine, dropWs, isWs])
+    rw [this]; congr 1; exact stripNl_append_nl (' ' :: headerText)
+  · rw [headerText_eq]; decide +kernel
+
+/-- the comment list handed to `io.to_swc`: optional `source: …` + empty line, then the tree's comments -/
+def written (source : Option Str) (wc : Bool) (comments : List Str) : List Str :=
+  (match source with
+    | some s => ["source: ".toList ++ s, []]
+    | none => []) ++ (if wc then comments else [])
+
+theorem writeSwc_eq (off : Nat) (source : Option Str) (wc : Bool) (comments : List Str) (rows : List WRow) :
+    writeSwc off source wc comments rows = writeLines off (written source wc comments) rows := by
+  cases source <;> rfl
+
+theorem written_no_nl (source : Option Str) (wc : Bool) (comments : List Str)
+    (hc : ∀ c ∈ comments, '\n' ∉ c) (hs : ∀ s, source = some s → '\n' ∉ s) :
+    ∀ c ∈ written source wc comments, '\n' ∉ c := by
+  intro c hm
+  cases source with
+  | none =>
+    cases wc
+    · simp [written] at hm
+    · simp [written] at hm; exact hc c hm
+  | some s =>
+    have hs' := hs s rfl
+    cases wc
+    · simp [written] at hm
+      rcases hm with rfl | rfl
+      · simp [hs']
+      · simp
+    · simp [written] at hm
+      rcases hm with rfl | rfl | hm
+      · simp [hs']
+      · simp
+      · exact hc c hm
+
+theorem writeLines_isLine (off : Nat) (cs : List Str) (rows : List WRow) (hc : ∀ c ∈ cs, '\n' ∉ c) :
+    ∀ l ∈ writeLines off cs rows, IsLine l := by
+  intro l hl
+  simp only [writeLines, List.mem_append, List.mem_map, List.mem_cons] at hl
+  rcases hl with ⟨c, hc', rfl⟩ | rfl | ⟨w, -, rfl⟩
+  · exact isLine_commentLine c (hc c hc')
+  · exact isLine_headerLine
+  · exact isLine_formatRow off w
+
+/-- the written lines really are the lines of the written text: joining them and iterating over the text
+line by line (as file iteration does) gives them back — this is where "no line break inside a comment /
+source string" is needed -/
+theorem written_lines_are_lines (off : Nat) (source : Option Str) (wc : Bool) (comments : List Str) (rows : List WRow)
+    (hc : ∀ c ∈ comments, '\n' ∉ c) (hs : ∀ s, source = some s → '\n' ∉ s) :
+    splitLines (writeSwc off source wc comments rows).flatten = writeSwc off source wc comments rows := by
+  rw [writeSwc_eq]
+  exact splitLines_flatten _ (writeLines_isLine off _ rows (written_no_nl source wc comments hc hs))
+
+theorem filterMap_row_comments (cs : List Str) : (cs.map commentLine).filterMap (rowOf 0) = [] := by
+  induction cs with
+  | nil => rfl
+  | cons c cs ih => simp [rowOf, classify_commentLine, ih]
+theorem filterMap_cmt_comments (cs : List Str) :
+    (cs.map commentLine).filterMap (cmtOf 0) = (cs.map readBack).filter keepComment := by
+  induction cs with
+  | nil => rfl
+  | cons c cs ih =>
+    by_cases hk : keepComment (readBack c) = true <;>
+      simp [cmtOf, classify_commentLine, hk, ← ih]
+theorem any_tl_comments (cs : List Str) : (cs.map commentLine).any (tlOf 0) = false := by
+  induction cs with
+  | nil => rfl
+  | cons c cs ih => simp [tlOf, classify_commentLine] at ih ⊢
+theorem filterMap_row_rows (off : Nat) (rows : List WRow) (hp : ∀ w ∈ rows, w.pid = -1 ∨ 0 ≤ w.pid) :
+    (rows.map (formatRow off)).filterMap (rowOf 0) = rows.map (shifted off) := by
+  induction rows with
+  | nil => rfl
+  | cons w ws ih =>
+    have := ih (fun w hw => hp w (by simp [hw]))
+    simp [rowOf, row_roundtrip off w (hp w (by simp)), ← this]
+theorem filterMap_cmt_rows (off : Nat) (rows : List WRow) (hp : ∀ w ∈ rows, w.pid = -1 ∨ 0 ≤ w.pid) :
+    (rows.map (formatRow off)).filterMap (cmtOf 0) = [] := by
+  induction rows with
+  | nil => rfl
+  | cons w ws ih =>
+    have := ih (fun w hw => hp w (by simp [hw]))
+    simp [cmtOf, row_roundtrip off w (hp w (by simp)), this]
+theorem any_tl_rows (off : Nat) (rows : List WRow) (hp : ∀ w ∈ rows, w.pid = -1 ∨ 0 ≤ w.pid) :
+    (rows.map (formatRow off)).any (tlOf 0) = false := by
+  induction rows with
+  | nil => rfl
+  | cons w ws ih =>
+    have := ih (fun w hw => hp w (by simp [hw]))
+    simp [tlOf, row_roundtrip off w (hp w (by simp))] at this ⊢
+    exact this
+
+/-- **table round trip.**  For every row list, offset ≥ 0, source header choice and comment list (no line
+breaks inside a comment): reading the written TEXT succeeds, returns exactly the written rows (shifted)
+in order, raises no "fields ignored" warning, and returns the written comments in order — those that do
+not themselves start with the column-header text. -/
+theorem table_roundtrip (off : Nat) (source : Option Str) (wc : Bool) (comments : List Str) (rows : List WRow)
+    (hc : ∀ c ∈ comments, '\n' ∉ c) (hs : ∀ s, source = some s → '\n' ∉ s)
+    (hp : ∀ w ∈ rows, w.pid = -1 ∨ 0 ≤ w.pid) :
+    readLines 0 (splitLines (writeSwc off source wc comments rows).flatten)
+      = .ok ⟨rows.map (shifted off),
+             ((written source wc comments).map readBack).filter keepComment, false⟩ := by
+  rw [written_lines_are_lines off source wc comments rows hc hs, readLines_eq, writeSwc_eq, readLinesWith_valid]
+  · have hh := (header_dropped 0)
+    have h1 : rowOf 0 headerLine = none := by simp [rowOf, hh.1]
+    have h2 : cmtOf 0 headerLine = none := by simp [cmtOf, hh.1, hh.2]
+    have h3 : tlOf 0 headerLine = false := by simp [tlOf, hh.1]
+    simp only [writeLines, List.filterMap_append, List.filterMap_cons, h1, h2, List.any_append, List.any_cons, h3,
+      filterMap_row_comments, filterMap_cmt_comments, any_tl_comments, filterMap_row_rows off rows hp,
+      filterMap_cmt_rows off rows hp, any_tl_rows off rows hp]
+    simp
+  · intro l hl
+    simp only [writeLines, List.mem_append, List.mem_map, List.mem_cons] at hl
+    rcases hl with ⟨c, -, rfl⟩ | rfl | ⟨w, hw, rfl⟩
+    · rw [classify_commentLine]; simp
+    · rw [(header_dropped 0).1]; simp
+    · rw [row_roundtrip off w (hp w hw)]; simp
+
+/-- **nothing is added to the comments but the optional source header**: when no written comment starts
+with the column-header text, the comments come back one for one, with the same text (leading blanks aside) -/
+theorem comments_roundtrip (off : Nat) (source : Option Str) (wc : Bool) (comments : List Str) (rows : List WRow)
+    (hc : ∀ c ∈ comments, '\n' ∉ c) (hs : ∀ s, source = some s → '\n' ∉ s)
+    (hp : ∀ w ∈ rows, w.pid = -1 ∨ 0 ≤ w.pid)
+    (hk : ∀ c ∈ written source wc comments, keepComment (readBack c) = true) :
+    ∃ res, readLines 0 (splitLines (writeSwc off source wc comments rows).flatten) = .ok res ∧
+      res.comments.map dropWs = (written source wc comments).map dropWs := by
+  refine ⟨_, table_roundtrip off source wc comments rows hc hs hp, ?_⟩
+  have hf : ((written source wc comments).map readBack).filter keepComment = (written source wc comments).map readBack := by
+    rw [List.filter_eq_self]
+    intro c hc'
+    simp only [List.mem_map] at hc'
+    obtain ⟨c0, h0, rfl⟩ := hc'
+    exact hk c0 h0
+  simp only [hf, List.map_map]
+  apply List.map_congr_left
+  intro c _
+  exact comment_text_same c
+
+/-- the tree the reader builds after `reset_index_` -/
+def original (w : WRow) : IRow :=
+  ⟨w.id, w.type, ⟨w.x.1, w.x.2, -4⟩, ⟨w.y.1, w.y.2, -4⟩, ⟨w.z.1, w.z.2, -4⟩, ⟨w.r.1, w.r.2, -4⟩, w.pid⟩
+
+/-- **re-basing undoes the offset**: for a table whose first row is the root with id 0 (a well-formed
+tree) and whose other parents are node ids (≥ 0), `reset_index_` of the shifted rows gives back every
+id and parent; with `table_roundtrip` this is: same node count, same parent of every node, same types,
+coordinates and radii on the 4-decimal grid — for every offset. -/
+theorem reset_restores (off : Nat) (w0 : WRow) (rest : List WRow) (h0 : w0.id = 0 ∧ w0.pid = -1)
+    (hp : ∀ w ∈ rest, w.pid = -1 ∨ 0 ≤ w.pid) :
+    resetIndex ((w0 :: rest).map (shifted off)) = (w0 :: rest).map original := by
+  obtain ⟨h0i, h0p⟩ := h0
+  have hb : firstRootId ((w0 :: rest).map (shifted off)) = (off : Int) := by
+    simp [firstRootId, shifted, h0p, h0i]
+  unfold resetIndex
+  simp only [hb, List.map_map]
+  apply List.map_congr_left
+  intro w hw
+  have hw' : w.pid = -1 ∨ 0 ≤ w.pid := by
+    simp only [List.mem_cons] at hw
+    rcases hw with rfl | hw
+    · exact Or.inl h0p
+    · exact hp w hw
+  simp only [Function.comp, shifted, original]
+  congr 1
+  · omega
+  · rcases hw' with h | h
+    · simp [h]
+    · have h1 : w.pid ≠ -1 := by omega
+      have h2 : w.pid + (off : Int) ≠ -1 := by omega
+      simp [h1, h2]
+
+-- non-vacuity: a concrete table written with offset 7 and read back
+def exRows : List WRow :=
+  [⟨0, 1, (false, 0), (true, 0), (false, 12345), (false, 10000), -1⟩,
+   ⟨1, 3, (true, 250001), (false, 5), (false, 0), (false, 2500), 0⟩]
+example : (writeSwc 7 none true ["  hello".toList, " ".toList] exRows).map String.ofList
+    = ["# hello\n", "#\n", "# id type x y z r pid\n", "7 1 0.0000 -0.0000 1.2345 1.0000 -1\n", "8 3 -25.0001 0.0005 0.0000 0.2500 7\n"] := by
+  decide +kernel
+example : (readLines 0 (splitLines (writeSwc 7 none true ["  hello".toList, " ".toList] exRows).flatten)).toOption.map (fun r => resetIndex r.rows)
+    = some (exRows.map original) := by decide +kernel
+
+end C01
